@@ -744,7 +744,9 @@ def oracle(case, res):
             # no documented range says whether NaN / inf is allowed here, so accepting or refusing is both fine -
             # but what the constructor ACCEPTS must be usable: drawing on ordinary uniforms does not raise
             if out[0] == "raise" and ordinary(used):
-                findings.append((f"accepted-but-unusable:{cname}",
+                infp = any(type(v) is float and math.isinf(v) for v in vals)
+                findings.append(((f"accepted-but-unusable-with-infinite-parameter:{cname}" if infp
+                                  else f"accepted-but-unusable:{cname}"),
                                  f"{cname}{tuple(vals)} was accepted at construction but draw() raised {out[1]}: {out[2]} "
                                  f"after consuming {[u.hex() for u in used]}", k))
             continue
